@@ -133,15 +133,42 @@ def rule_n3(ck, prog, spec, S):
             ck.anchor_lost("C04-N3", name)
             continue
         tab = {}
-        for ps in P.summarize(f):
-            cls = None
-            for a, pol in ps.facts:
-                if isinstance(pol, tuple) and pol[0] == "case" and (a.get("path") or "").endswith("type"):
-                    cls = pol[1]
-            conv = [c for c in ps.calls if (c.get("callee") or "").startswith("strBaseTo")]
-            if cls is not None and conv:
-                tab.setdefault(cls, set()).add((C.const_of(K.arg(conv[0], 2)),
-                                                C.call_args(conv[0])[0].strip_all_casts().get("path")))
+        # class -> (radix, converter argument) by evaluating the decoder on a parameter of each token class (its text unknown):
+        # the converter calls reached are read off with their evaluated radix, whether the class is dispatched by a switch,
+        # an if-chain or a table
+        from sa import interp as I
+        evaluated = True
+        for cls in radix:
+            if cls is None:
+                continue
+            tokptr = object()
+            param = {"type": cls, "ptr": I.TOP, "len": I.TOP}
+            try:
+                outs, m_ = I.explore(prog, name, [I.TOP, I.Ptr([param], 0), I.TOP, I.TOP], follow=lambda n_: False)
+            except I.Stuck:
+                evaluated = False
+                break
+            for cn, a in m_.log:
+                if (cn or "").startswith("strBaseTo") and len(a) >= 3 and isinstance(a[2], int):
+                    tab.setdefault(cls, set()).add((a[2], f.params[1]["name"] + "->ptr"))
+        if evaluated:
+            # the converter's text argument is the token start: decided on the call sites themselves
+            for c in f.calls():
+                if (c.get("callee") or "").startswith("strBaseTo"):
+                    if C.call_args(c)[0].strip_all_casts().get("path") != f.params[1]["name"] + "->ptr":
+                        for k_ in tab:
+                            tab[k_] = {(b_, C.call_args(c)[0].strip_all_casts().get("path")) for b_, _p in tab[k_]}
+        else:
+            tab = {}
+            for ps in P.summarize(f):
+                cls = None
+                for a, pol in ps.facts:
+                    if isinstance(pol, tuple) and pol[0] == "case" and (a.get("path") or "").endswith("type"):
+                        cls = pol[1]
+                conv = [c for c in ps.calls if (c.get("callee") or "").startswith("strBaseTo")]
+                if cls is not None and conv:
+                    tab.setdefault(cls, set()).add((C.const_of(K.arg(conv[0], 2)),
+                                                    C.call_args(conv[0])[0].strip_all_casts().get("path")))
         tables[name] = tab
         st = K.site(f, "radix-wiring", 0)
         bad = []
@@ -160,7 +187,38 @@ def rule_n3(ck, prog, spec, S):
     f = prog.fn("SCPI_ParamNumber")
     if f is not None:
         tab = {}
-        for ps in P.summarize(f, limit=100000):
+        from sa import interp as I
+        evaluated = True
+        vname = f.params[2]["name"] if len(f.params) > 2 else None
+        for cls in radix:
+            if cls is None or vname is None:
+                continue
+
+            def hook(mach, args, cls=cls):
+                obj = args[1].load() if isinstance(args[1], I.Ptr) else None
+                if obj is None and isinstance(args[1], I.Ptr):
+                    obj = {}
+                    args[1].store(obj)
+                if isinstance(obj, dict):
+                    obj.update({"type": cls, "ptr": I.TOP, "len": I.TOP})
+                return 1
+            value = {}
+            seen_ = set()
+
+            def obs(kind, node, ops, fr, value=value, seen_=seen_):
+                if kind == "store" and isinstance(ops[0], I.Ptr) and ops[0].key == "base" and isinstance(ops[1], int):
+                    tgt = node.child(0).strip_all_casts()
+                    if tgt.k == "MemberExpr" and tgt.get("arrow") and tgt.child(0).strip_all_casts().get("path") == vname:
+                        seen_.add(ops[1])
+            try:
+                I.explore(prog, f.name, [I.TOP, I.TOP, I.Ptr([value], 0), I.TOP], observer=obs, follow=lambda n_: False,
+                          effects={"SCPI_Parameter": hook})
+            except I.Stuck:
+                evaluated = False
+                break
+            if seen_:
+                tab[cls] = set(seen_)
+        for ps in (P.summarize(f, limit=100000) if not evaluated else ()):
             cls = None
             base = None
             for ev in ps.events:
@@ -201,6 +259,10 @@ def rule_n3(ck, prog, spec, S):
             bad.append("%s is selected by {%s}, expected {%s}" % (name, c13.show(g[0] or set()), c13.show(letters)))
         elif g[1] is not None and g[1] != rec:
             bad.append("%s digits are recognised by %s, expected %s" % (name, g[1], rec))
+        elif len(g) > 2 and g[2] is not None:
+            wantd = {"skipHexNum": set(b"0123456789abcdefABCDEF"), "skipOctNum": set(b"01234567"), "skipBinNum": set(b"01")}[rec]
+            if g[2] != wantd:
+                bad.append("after the %s letter the digits {%s} are accepted, expected {%s}" % (name, c13.show(g[2]), c13.show(wantd)))
     if bad:
         ck.violated("C04-N3", st, K.loc(f), "; ".join(bad))
     else:
